@@ -17,7 +17,7 @@ META = {
             "real-thread runs with self-checking payloads of 1 byte .. 512 bytes and odd alignments through the raw "
             "management API, are validated by TLC against SeqLockObs.tla (whole, written, monotone per reader) and, at "
             "the atomic level, against SeqLock2.tla.",
-    "note": "Trusted: TLC, C11Mem simplifications (reads are instantaneous: a payload read that is reordered after the "
+    "note": "Scheduled runs exist in two forms: yield points before every atomic access and after publishing writes, and additionally AFTER every load (the reader can then be preempted between its counter load and the plain copy of the value). Trusted: TLC, C11Mem simplifications (reads are instantaneous: a payload read that is reordered after the "
             "validating CAS is not representable), drop-in atomics, SC replay on x86. The writer-port / entry-handle "
             "uniqueness clause of C12 is exercised by the blackboard part of this check only when built (see notes).",
     "design_ref": "DESIGN.md 5 C12",
